@@ -86,6 +86,16 @@ def _own_consts(b, pred):
     return out
 
 
+def cnt_raw(v):
+    """the addend of `offsets[len-1] + n` (un-stripped)"""
+    x = v
+    while isinstance(x, tuple) and x and x[0] in ("field", "cast") and isinstance(x[1], tuple):
+        x = x[1]
+    if isinstance(x, tuple) and x and x[0] == "binop" and len(x) > 3:
+        return x[3]
+    return v
+
+
 def r11_7(ctx, rep):
     """R11.7: the chunk file name writer and parser agree (sibling codec tables): same literal prefix/suffix, and the length the parser
     insists on is the length the writer always produces."""
@@ -268,8 +278,19 @@ def run(ctx, rep):
                 v = unfield0(strip_ids(event_args(g, n)[1]))
                 ok = isinstance(v, tuple) and v[0] == "binop" and v[1].startswith("Add") and is_off(v[2], 1)
                 cnt = unfield0(v[3]) if ok else None
+                def under(e):
+                    ids, stack = set(), [g.callee_inst[e]]
+                    while stack:
+                        x_ = stack.pop()
+                        ids.add(x_.id)
+                        stack.extend(y_ for y_ in g.insts if y_.parent is x_)
+                    return ids
+                # the count comes out of THIS record's encode call: the call itself, or (when the encoder's result is looked through) values
+                # computed inside that call's instance / its private helpers
                 ok = ok and any(contains(event_args(g, n)[1], lambda y, e=e: isinstance(y, tuple) and len(y) > 3 and y[0] in ("ret", "call") and y[3] == e)
-                                or contains(event_args(g, n)[1], lambda y, e=e: isinstance(y, tuple) and len(y) == 3 and y[0] == "var" and y[1] == g.callee_inst[e].id)
+                                or contains(cnt_raw(event_args(g, n)[1]), lambda y, e=e, u=under(e): isinstance(y, tuple) and (
+                                    (len(y) == 3 and y[0] == "var" and y[1] in u) or
+                                    (len(y) > 3 and y[0] in ("call", "ret") and isinstance(y[3], tuple) and y[3][0] in u)))
                                 for e in encs)
                 if ok:
                     rep.ok("R11.2", "%s: offsets.push" % op, "offsets[len-1] + bytes returned by encoding this record into pending_data", where=g.where(n))
